@@ -341,6 +341,15 @@ func genC02(r *Rng, e *Emitter, n int) {
 				var spec, res string
 				res = guard(func() string {
 					var rs string
+					if mp, ok := g.(*mMPoly); ok && pl == l && l.Stride() > 0 && mp.g.NumPolygons() > 0 && r.chance(1, 6) {
+						// the receiver's own last part, given one more ring by the caller (which writes into
+						// the receiver's spare capacity) and pushed back onto the same receiver
+						p := mp.g.Polygon(mp.g.NumPolygons() - 1)
+						p.Push(geom.NewLinearRingFlat(l, flatOf(r.partCoords1(l.Stride()))))
+						spec = sxCoords2(p.Coords())
+						e.tally("op=push-own-last-part-back")
+						return pushRes(mp.g.Push(p))
+					}
 					spec, rs = g.push(r, pl)
 					return rs
 				})
